@@ -793,9 +793,10 @@ MUTANTS = [   # (mutant, invariant it must violate, constants)
 ]
 
 
-def cfg_text(n, plen, ops, mutant="none", legacy=True, warm=False, invs=None, deadlock=True, view=True, lazy=True):
+def cfg_text(n, plen, ops, mutant="none", legacy=True, warm=False, invs=None, deadlock=True, view=True, lazy=True, fast=False):
     invs = INVS if invs is None else invs
-    lines = ["SPECIFICATION Spec", "CONSTANTS", f"  NThreads = {n}", f"  ProgLen = {plen}",
+    # FastSpec: the same next-state relation, dispatched on the label of the top frame (faster on the large runs)
+    lines = ["SPECIFICATION " + ("FastSpec" if fast else "Spec"), "CONSTANTS", f"  NThreads = {n}", f"  ProgLen = {plen}",
              "  OpSel = {" + ", ".join('"%s"' % o for o in ops) + "}", f'  Mutant = "{mutant}"',
              "  Legacy = " + ('{"warn_ctx"}' if legacy else "{}"), f"  WarmPool = {'TRUE' if warm else 'FALSE'}",
              f"  LazyProg = {'TRUE' if lazy else 'FALSE'}"]
@@ -872,7 +873,7 @@ MIX3 = [
 
 # =============================================================================== run
 BUDGET = {
-    "quick": dict(pristine_cap=90, pristine_m=5, sim=100, sim3=40, single_cap=220, expand=16, expand_m=4, pct=30, rand=30, opcode=20, chunk=80,
+    "quick": dict(pristine_cap=80, pristine_m=5, sim=80, sim3=30, single_cap=170, expand=14, expand_m=4, pct=24, rand=24, opcode=16, chunk=70,
                   log_every=8, extra2=0, extra3=0),
     "thorough": dict(pristine_cap=300, pristine_m=8, sim=400, sim3=150, single_cap=1000, expand=120, expand_m=5, pct=150, rand=150,
                      opcode=100, chunk=240, log_every=40, extra2=12, extra3=5),
@@ -926,14 +927,14 @@ def _tlc_jobs(d, tier):
 
     no_glob = [i for i in INVS if i != "P3_GlobalRestored"]
     # the faithful model of 0.23.0 (catch_warnings around code generation): everything but the global state
-    add("faithful_2x2_kinds", None, workers=10, n=2, plen=2, ops=KINDS6 if tier == "quick" else KINDS10, invs=no_glob)
+    add("faithful_2x2_kinds", None, workers=10, n=2, plen=2, ops=KINDS6 if tier == "quick" else KINDS10, invs=no_glob, fast=True)
     add("faithful_2x1_all_cold", None, coverage=True, n=2, plen=1, ops=OPS, invs=no_glob, lazy=False)
     add("faithful_2x1_all_warm", None, n=2, plen=1, ops=OPS, invs=no_glob, warm=True, lazy=False)
     add("faithful_3x1_poolconf", None, workers=4, n=3, plen=1, ops=POOLCONF[:3] if tier == "quick" else POOLCONF,
-        invs=no_glob, warm=True, lazy=False)
+        invs=no_glob, warm=True, lazy=False, fast=True)
     if tier == "thorough":
-        add("faithful_3x2_conf_th", None, workers=6, n=3, plen=2, ops=["Conf_ka", "Conf_ka2", "TH_NA"], invs=no_glob)
-        add("ideal_3x1_poolconf", None, workers=4, n=3, plen=1, ops=POOLCONF, legacy=False, warm=True, lazy=False)
+        add("faithful_3x2_conf_th", None, workers=6, n=3, plen=2, ops=["Conf_ka", "Conf_ka2", "TH_NA"], invs=no_glob, fast=True)
+        add("ideal_3x1_poolconf", None, workers=4, n=3, plen=1, ops=POOLCONF, legacy=False, warm=True, lazy=False, fast=True)
     # the ideal design (warnings handled without a process-global save/restore): every property
     add("ideal_2x1_all", None, n=2, plen=1, ops=OPS, legacy=False, lazy=False)
     # the faithful model against the ideal property
